@@ -352,6 +352,24 @@ def check_C13(chk):
         ok = len(im) == 1 and (an.arg_pointee(f, im[0][1], 0) or (None,))[0] == scs_local
         chk.ob("C13.a", "dataflow/mask-on-written-spectrum", ok, f.loc(msw[0]), "the masked slice is inner_mut().as_mut_slice() of the spectrum that is written")
 
+    # nothing but the four steps modifies the spectrum between reading and writing it
+    if scs_local is not None:
+        import rules_io as RIO
+        extra_mut = []
+        for b_, i_, p_, rv_, s_ in f.assigns():
+            if rv_["k"] == "ref" and rv_.get("mut") and P(rv_["place"])[0] == scs_local:
+                for ub, kind, det in RIO.local_uses(f, p_[0]):
+                    if kind != "call":
+                        continue
+                    if det == callee_name(Nm[0][1]["callee"]) or det.endswith("::normalize"):
+                        continue
+                    if (det.endswith("::inner_mut") and ub in mregion):
+                        continue
+                    extra_mut.append("%s at %s" % (det.split("::")[-1], f.loc(ub)))
+        chk.ob("C13.a", "View::run/spectrum-modified-only-by-the-four-steps", not extra_mut, f.loc(),
+               "between read and write the spectrum is replaced by marginalize/project and modified in place only by the mask stores and normalize() "
+               "(other mutable uses: %s)" % (sorted(set(extra_mut)) or "none"))
+
     # (b) control dependence
     def dominating_conditions(b, own_field):
         """branch edges dominating block b, classified; anything that is neither the step's own option, a `?` success edge of an
